@@ -15,7 +15,7 @@ PROP = "C01"
 LEVEL = "exploration"
 MIN_VARIANTS = 1
 TIERS = {
-    "quick": {"cases": 260, "budget_s": 75, "batch": 48},
+    "quick": {"cases": 420, "budget_s": 150, "batch": 48},
     "thorough": {"cases": 8000, "budget_s": 900, "batch": 64},
 }
 RULE = (
